@@ -159,3 +159,371 @@ theorem register_nodup (st st' : St) (r : Rec) (h : NoDup st) (he : register st 
       intro m hm; rw [hn] at hm; cases hm
 
 end Gfa.C09
+
+namespace Gfa.C09
+open G
+
+theorem substitute_nodup (st st' : St) (i : Nat) (r : Rec) (h : NoDup st) (hi : i < st.lines.length)
+    (hr : ∀ n, r.name = some n → n ∉ names st ∨ (st.lines.getD i default).name = some n)
+    (he : substitute st i r = .ok st') : NoDup st' := by
+  unfold substitute at he
+  apply ensureRefs_nodup _ st' r _ he
+  unfold NoDup
+  rw [names_eq]
+  exact nodup_set st.lines i r h hi hr
+
+theorem addLinkOnto_nodup (st st' : St) (r : Rec) (l : Link) (i : Nat) (h : NoDup st) (hi : i < st.lines.length)
+    (he : addLinkOnto st r l i = .ok st') : NoDup st' := by
+  unfold addLinkOnto at he
+  split at he
+  · split at he
+    · rename_i hfree
+      apply substitute_nodup st st' i r h hi _ he
+      intro m hm
+      left
+      unfold nameFree at hfree
+      rw [hm] at hfree
+      intro hin
+      have := (hasName_iff st m).mpr hin
+      simp [this] at hfree
+    · cases he
+  · split at he
+    · injection he with he; rw [← he]; exact h
+    · cases he
+
+theorem addLinkFresh_nodup (st st' : St) (r : Rec) (h : NoDup st) (he : addLinkFresh st r = .ok st') : NoDup st' := by
+  unfold addLinkFresh at he
+  split at he
+  · exact register_nodup st st' r h he
+  · rename_i n hn
+    split at he
+    · exact register_nodup st st' r h he
+    · rename_i j hj
+      obtain ⟨hjl, hjp⟩ := findIdx_some_lt _ _ _ hj
+      split at he
+      · apply substitute_nodup st st' j r h hjl _ he
+        intro m hm; rw [hn] at hm; cases hm
+        right; simpa using hjp
+      · cases he
+
+theorem name_group (r : Rec) (n : String) (hg : r.rt = .O ∨ r.rt = .U) (hn : r.name = some n) : fld r 0 = n ∧ n ≠ "*" := by
+  rcases hg with ho | hu
+  · simp only [Rec.name, ho] at hn; split at hn <;> simp_all
+  · simp only [Rec.name, hu] at hn; split at hn <;> simp_all
+
+theorem mergeGroup_nodup (st st' : St) (r : Rec) (n : String) (i : Nat) (h : NoDup st) (hi : i < st.lines.length)
+    (hp : (st.lines.getD i default).name = some n) (hg : r.rt = .O ∨ r.rt = .U) (hn : r.name = some n)
+    (he : mergeGroup st r n i = .ok st') : NoDup st' := by
+  unfold mergeGroup at he
+  split at he
+  · cases he
+  · rename_i tg _
+    apply ensureRefs_nodup _ st' r _ he
+    unfold NoDup
+    rw [names_eq]
+    apply nodup_set st.lines i _ h hi
+    intro m hm
+    right
+    rw [hp]
+    obtain ⟨_, hne⟩ := name_group r n hg hn
+    rcases hg with ho | hu
+    · simp only [Rec.name, ho, fld, List.cons_append, List.getD_cons_zero] at hm
+      split at hm <;> simp_all
+    · simp only [Rec.name, hu, fld, List.cons_append, List.getD_cons_zero] at hm
+      split at hm <;> simp_all
+
+theorem addOnto_nodup (st st' : St) (r : Rec) (n : String) (i : Nat) (h : NoDup st) (hi : i < st.lines.length)
+    (hp : (st.lines.getD i default).name = some n) (hn : r.name = some n)
+    (he : addOnto st r n i = .ok st') : NoDup st' := by
+  unfold addOnto at he
+  split at he
+  · split at he
+    · apply substitute_nodup st st' i r h hi _ he
+      intro m hm; rw [hn] at hm; cases hm; right; exact hp
+    · cases he
+  · split at he
+    · rename_i hgrp
+      exact mergeGroup_nodup st st' r n i h hi hp hgrp.1 hn he
+    · cases he
+
+/-- **`add_line` keeps the identifiers pairwise distinct**, whatever the line and the state -/
+theorem add_nodup (st st' : St) (r : Rec) (h : NoDup st) (he : add st r = .ok st') : NoDup st' := by
+  unfold add at he
+  split at he
+  · cases he
+  split at he
+  · split at he <;> cases he
+  split at he
+  · split at he
+    · cases he
+    · rename_i l _
+      split at he
+      · rename_i i hfound
+        obtain ⟨hi, _⟩ := findIdx_some_lt _ _ _ hfound
+        exact addLinkOnto_nodup st st' r l i h hi he
+      · exact addLinkFresh_nodup st st' r h he
+  · split at he
+    · exact register_nodup st st' r h he
+    · rename_i n hn
+      split at he
+      · exact register_nodup st st' r h he
+      · rename_i i hfound
+        obtain ⟨hi, hp⟩ := findIdx_some_lt _ _ _ hfound
+        exact addOnto_nodup st st' r n i h hi (by simpa using hp) hn he
+
+end Gfa.C09
+
+namespace Gfa.C09
+open G
+
+theorem dropItems_name (gone : List String) (r : Rec) : (dropItems gone r).name = r.name := by
+  unfold dropItems
+  split
+  · rename_i hu
+    simp [Rec.name, hu, fld]
+  · rfl
+
+theorem kept_sublist (ls : List Rec) (dead : List Nat) :
+    ((ls.zipIdx.filter (fun p => !dead.contains p.2)).map (·.1)).Sublist ls := by
+  have h1 : (ls.zipIdx.filter (fun p => !dead.contains p.2)).Sublist ls.zipIdx := List.filter_sublist
+  have h2 := h1.map (·.1)
+  have h3 : ls.zipIdx.map (·.1) = ls := by
+    simp [List.zipIdx_eq_zip_range', List.map_fst_zip]
+  rw [h3] at h2
+  exact h2
+
+/-- **removing lines keeps the identifiers distinct** -/
+theorem rmIdx_nodup (st : St) (seed : List Nat) (h : NoDup st) : NoDup (rmIdx st seed) := by
+  unfold NoDup rmIdx at *
+  rw [names_eq] at *
+  simp only []
+  have hmap : ∀ (ks : List Rec) (gone : List String), namesOf (ks.map (dropItems gone)) = namesOf ks := by
+    intro ks gone
+    simp only [namesOf, List.filterMap_map]
+    congr 1
+    funext r
+    exact dropItems_name gone r
+  rw [hmap]
+  have hs := kept_sublist st.lines (cascade st seed)
+  exact (hs.filterMap Rec.name).nodup h
+
+theorem rm_nodup (st st' : St) (n : String) (h : NoDup st) (he : rm st n = .ok st') : NoDup st' := by
+  unfold rm at he
+  split at he
+  · cases he
+  · injection he with he; rw [← he]; exact rmIdx_nodup st _ h
+
+end Gfa.C09
+
+namespace Gfa.C09
+open G
+
+theorem idTag_map (b : String) (xs : List String) (n : String)
+    (h : idTag (xs.map (fun t => if isIdTag t then "ID:Z:" ++ b else t)) = some n) : n = b := by
+  unfold idTag at h
+  rw [List.find?_map] at h
+  cases hf : xs.find? (isIdTag ∘ fun t => if isIdTag t then "ID:Z:" ++ b else t) with
+  | none => simp [hf] at h
+  | some t =>
+    simp only [hf, Option.map_some, Option.some.injEq] at h
+    have hp := List.find?_some hf
+    simp only [Function.comp] at hp
+    by_cases ht : isIdTag t = true
+    · simp only [ht, if_true] at h
+      rw [← h]; simp
+    · simp only [ht, Bool.false_eq_true, if_false] at hp
+
+theorem setName_name (b : String) (r : Rec) (n : String) (h : (setName b r).name = some n) : n = b := by
+  unfold setName at h
+  cases hrt : r.rt <;> simp only [hrt, Rec.name, fld, ← List.map_drop, List.getD_cons_zero] at h
+  all_goals first
+    | exact idTag_map b _ n h
+    | (split at h <;> simp_all)
+    | cases h
+theorem filterMap_congr' {α β} (l : List α) (f g : α → Option β) (h : ∀ x ∈ l, f x = g x) :
+    l.filterMap f = l.filterMap g := by
+  induction l with
+  | nil => rfl
+  | cons x xs ih =>
+    simp only [List.filterMap_cons, h x (by simp), ih (fun y hy => h y (by simp [hy]))]
+
+theorem namesOf_rename (ls : List Rec) (i : Nat) (f : Rec → Rec) (g : Rec → Nat → Rec)
+    (hg : ∀ r j, (g r j).name = r.name) (hi : i < ls.length) :
+    namesOf (ls.zipIdx.map (fun p => if p.2 = i then f p.1 else g p.1 p.2)) =
+      namesOf (ls.set i (f (ls.getD i default))) := by
+  suffices h : ∀ (ls : List Rec) (k : Nat) (i : Nat), i < ls.length →
+      namesOf ((ls.zipIdx k).map (fun p => if p.2 = i + k then f p.1 else g p.1 p.2)) =
+        namesOf (ls.set i (f (ls.getD i default))) by
+    simpa using h ls 0 i hi
+  intro ls
+  induction ls with
+  | nil => intro k i hi; simp at hi
+  | cons x xs ih =>
+    intro k i hi
+    cases i with
+    | zero =>
+      simp only [List.zipIdx_cons, List.map_cons, Nat.zero_add, if_true, List.set_cons_zero, List.getD_cons_zero]
+      simp only [namesOf, List.filterMap_cons]
+      have : List.filterMap Rec.name (List.map (fun p => if p.2 = k then f p.1 else g p.1 p.2) (xs.zipIdx (k + 1))) =
+          List.filterMap Rec.name xs := by
+        have hne : ∀ p ∈ xs.zipIdx (k + 1), ¬ p.2 = k := by
+          intro p hp
+          have := List.le_snd_of_mem_zipIdx hp
+          omega
+        rw [List.filterMap_map]
+        conv => rhs; rw [← List.zipIdx_map_fst (k + 1) xs, List.filterMap_map]
+        apply filterMap_congr'
+        intro p hp
+        simp [Function.comp, hne p hp, hg]
+      rw [this]
+    | succ j =>
+      have hj : j < xs.length := by simpa using hi
+      have hne : ¬ (k = j + 1 + k) := by omega
+      simp only [List.zipIdx_cons, List.map_cons, hne, if_false, List.set_cons_succ, List.getD_cons_succ]
+      simp only [namesOf, List.filterMap_cons, hg]
+      have := ih (k + 1) j hj
+      simp only [namesOf] at this
+      have e : j + 1 + k = j + (k + 1) := by omega
+      rw [e, this]
+
+theorem renameOther_name (isSeg : Bool) (a b : String) (r : Rec) : (renameOther isSeg a b r).name = r.name := by
+  unfold renameOther
+  split
+  · exact renameIn_name a b r
+  · split <;> first | exact renameIn_name a b r | rfl
+
+/-- **renaming keeps the identifiers pairwise distinct** -/
+theorem rename_nodup (st st' : St) (a b : String) (h : NoDup st) (he : rename st a b = .ok st') : NoDup st' := by
+  unfold rename at he
+  split at he
+  · cases he
+  · rename_i i hfound
+    obtain ⟨hi, _⟩ := findIdx_some_lt _ _ _ hfound
+    split at he
+    · injection he with he; rw [← he]; exact h
+    · split at he
+      · cases he
+      · split at he
+        · cases he
+        · rename_i hfree
+          injection he with he
+          rw [← he]
+          unfold NoDup
+          rw [names_eq]
+          simp only []
+          rw [namesOf_rename st.lines i (setName b)
+            (fun r _ => renameOther (decide ((st.lines.getD i default).rt = .S)) a b r)
+            (fun r _ => renameOther_name _ a b r) hi]
+          apply nodup_set st.lines i _ h hi
+          intro n hn
+          left
+          have := setName_name b _ n hn
+          subst this
+          intro hin
+          exact hfree ((hasName_iff st n).mpr hin)
+
+end Gfa.C09
+
+namespace Gfa.C09
+open G
+
+/-- public mutations of the model Gfa -/
+inductive Op where
+  | add (r : Rec)
+  | rm (n : String)
+  | rename (a b : String)
+
+/-- one call: a failing call leaves the state as it was (C08) -/
+def step (st : St) : Op → St
+  | .add r => match add st r with | .ok s => s | .error _ => st
+  | .rm n => match rm st n with | .ok s => s | .error _ => st
+  | .rename a b => match rename st a b with | .ok s => s | .error _ => st
+
+def run (v : Ver) (ops : List Op) : St := ops.foldl step (St.empty v)
+
+theorem step_nodup (st : St) (op : Op) (h : NoDup st) : NoDup (step st op) := by
+  cases op with
+  | add r => simp only [step]; cases he : add st r with
+    | ok s => exact add_nodup st s r h he
+    | error e => exact h
+  | rm n => simp only [step]; cases he : rm st n with
+    | ok s => exact rm_nodup st s n h he
+    | error e => exact h
+  | rename a b => simp only [step]; cases he : rename st a b with
+    | ok s => exact rename_nodup st s a b h he
+    | error e => exact h
+
+/-- **at all times the identified lines carry pairwise distinct identifiers**: for every history of
+    additions, removals and renames — successful or refused — from the empty Gfa -/
+theorem nodup_reachable (v : Ver) (ops : List Op) : NoDup (run v ops) := by
+  unfold run
+  suffices h : ∀ st, NoDup st → NoDup (ops.foldl step st) from h _ (nodup_empty v)
+  induction ops with
+  | nil => intro st h; exact h
+  | cons op ops ih => intro st h; exact ih _ (step_nodup st op h)
+
+/-- **lookup returns exactly the line that carries the identifier** -/
+theorem lookup_sound (st : St) (n : String) (r : Rec) (h : findNamed st n = some r) : r ∈ st.lines ∧ r.name = some n := by
+  unfold findNamed at h
+  exact ⟨List.mem_of_find?_eq_some h, by simpa using List.find?_some h⟩
+
+theorem lookup_none (st : St) (n : String) (h : findNamed st n = none) : ∀ r ∈ st.lines, r.name ≠ some n := by
+  unfold findNamed at h
+  intro r hr hn
+  have := List.find?_eq_none.mp h r hr
+  simp [hn] at this
+
+theorem lookup_unique_aux (ls : List Rec) (n : String) (r : Rec) (hnd : (namesOf ls).Nodup) (hr : r ∈ ls)
+    (hn : r.name = some n) : ls.find? (fun q => q.name = some n) = some r := by
+  induction ls with
+  | nil => cases hr
+  | cons x xs ih =>
+    simp only [List.find?_cons]
+    by_cases hx : x.name = some n
+    · simp only [hx, decide_true]
+      rcases List.mem_cons.mp hr with rfl | hin
+      · rfl
+      · exfalso
+        simp only [namesOf, List.filterMap_cons, hx, List.nodup_cons] at hnd
+        apply hnd.1
+        exact List.mem_filterMap.mpr ⟨r, hin, hn⟩
+    · simp only [hx, decide_false]
+      rcases List.mem_cons.mp hr with rfl | hin
+      · exact absurd hn hx
+      · apply ih _ hin
+        simp only [namesOf, List.filterMap_cons] at hnd
+        cases hxn : x.name with
+        | none => simpa [namesOf, hxn] using hnd
+        | some m => rw [hxn] at hnd; exact (List.nodup_cons.mp hnd).2
+
+/-- … and every identified line is found under its identifier (no line is shadowed by another) -/
+theorem lookup_complete (st : St) (h : NoDup st) (r : Rec) (n : String) (hr : r ∈ st.lines) (hn : r.name = some n) :
+    findNamed st n = some r :=
+  lookup_unique_aux st.lines n r h hr hn
+
+/-- **renaming to an identifier in use raises NotUniqueError** and changes nothing -/
+theorem rename_dup_raises (st : St) (a b : String) (i : Nat)
+    (ha : st.lines.findIdx? (fun q => q.name = some a) = some i) (hab : a ≠ b) (hb : b ≠ "*") (hin : hasName st b = true) :
+    rename st a b = .error .notUnique := by
+  simp [rename, ha, hab, hb, hin]
+
+/-- **adding a line whose identifier is carried by a real line of another kind raises NotUniqueError** -/
+theorem add_dup_raises (st : St) (r : Rec) (n : String) (i : Nat)
+    (hreal : (st.lines.getD i default).virt = false)
+    (hnomerge : ¬ ((r.rt = .O ∨ r.rt = .U) ∧ (st.lines.getD i default).rt = r.rt)) :
+    addOnto st r n i = .error .notUnique := by
+  unfold addOnto
+  rw [if_neg (by rw [hreal]; decide), if_neg hnomerge]
+
+/-- the documented merge: a link equal to the complement of the stored one changes nothing and raises nothing -/
+theorem add_complement_noop (st : St) (r : Rec) (l : Link) (i : Nat)
+    (hreal : (st.lines.getD i default).virt = false) (hc : complOfStored st l i = true) :
+    addLinkOnto st r l i = .ok st := by
+  unfold addLinkOnto
+  rw [if_neg (by rw [hreal]; decide), if_pos hc]
+
+-- non-vacuity: a forward reference creates a placeholder segment, the definition replaces it
+example : (run .gfa1 [.add ⟨.L, ["A", "+", "B", "-", "*"], false⟩, .add ⟨.S, ["A", "*"], false⟩]).lines.length = 3 := by
+  decide
+
+end Gfa.C09
